@@ -17,7 +17,7 @@ RULE = ('all orders of the interface-join calls (plus one repeated call, random 
         '(2D/3D, p 1-3, C0 lines) with glued-vs-undivided system comparison; patch permutations/re-parametrisations for automatic detection; '
         'a case is one (complex, order, flips) or one split; distinct by descriptor; non-trivial if >= 2 joins')
 MIN_NONTRIVIAL = {'quick': 400, 'thorough': 6000}
-REQUIRED_COUNTERS = ['hook:join_dofs', 'invariant:classes_after_join', 'oracle:numbering', 'oracle:patch_to_global', 'oracle:split_system',
+REQUIRED_COUNTERS = ['hook:join_dofs', 'invariant:classes_after_join', 'oracle:numbering', 'oracle:patch_to_global', 'oracle:patch_to_global_j_global', 'oracle:split_system',
                      'oracle:detect_interfaces', 'oracle:join_boundaries_pairs']
 EXHAUSTIVE = {'quick': False, 'thorough': True}
 ASSUMPTIONS = ['the undivided assembly (precompiled stiffness/mass/L2 assemblers) is trusted (C01/C09)', 'declared identifications are taken from the '
@@ -176,6 +176,20 @@ def _check_final(rec, case, sig, mp, N):
             bad('transpose of patch_to_global is its left inverse', patch=p); return False
         if not np.array_equal(mp.global_to_patch(p).toarray(), Xd.T):
             bad('global_to_patch is the transpose', patch=p); return False
+        # j_global=True: the same matrix placed in the column block of patch p among the local dofs of all patches
+        Xg = mp.patch_to_global(p, j_global=True).toarray()
+        ofs = int(sum(N[:p])); tot = int(sum(N))
+        want = np.zeros((mp.numdofs, tot)); want[:, ofs:ofs + N[p]] = Xd
+        rec.count('oracle:patch_to_global_j_global')
+        if Xg.shape != want.shape or not np.array_equal(Xg, want):
+            cols = np.flatnonzero(Xg.any(axis=0)) if Xg.ndim == 2 else []
+            bad('patch_to_global(p, j_global=True) is patch_to_global(p) in the column block of patch p', patch=p,
+                columns_used=[int(cols.min()), int(cols.max())] if len(cols) else [], expected_block=[ofs, ofs + N[p] - 1]); return False
+    # the column blocks of all patches side by side map the local dofs of all patches to the global ones: every global dof is hit
+    if len(N):
+        S = sum(mp.patch_to_global(p, j_global=True) for p in range(len(N))).toarray()
+        if not np.array_equal(S.sum(axis=0), np.ones(int(sum(N)))) or not np.all(S.sum(axis=1) >= 1):
+            bad('the j_global matrices of all patches add up to the local-to-global map'); return False
     return True
 
 def _face_dofs(N, ax, side, flip=None):
